@@ -388,6 +388,8 @@ struct Slot {
     head_sent: usize,
     full: Vec<u8>, // full H1 request bytes
     ended: bool,
+    /// the rest of the request was written, the answer is still awaited
+    released: bool,
 }
 
 struct Ctl {
@@ -612,7 +614,24 @@ fn close_scm(w: &Worker) {
 
 fn run_scenario(sc: &Scenario, be: &Backends, pause_ms: u64, jitter_ms: u64, seed: u64) -> Value {
     let n = sc.protos.len();
-    let addrs: Vec<SocketAddr> = (0..n).map(|_| free_addr()).collect();
+    // ports are "free a moment ago": when another process grabbed one in between, start over with fresh ones
+    let mut attempt = 0;
+    let (addrs, mut old) = loop {
+        attempt += 1;
+        let addrs: Vec<SocketAddr> = (0..n).map(|_| free_addr()).collect();
+        let mut old = start_worker(&format!("old{}", sc.run), vh::worker::server_config(|_| {}), &Listeners::default(), sozu_command_lib::state::ConfigState::new());
+        match setup_worker(&mut old, sc, &addrs, be.http_old, be.tcp_old) {
+            Ok(()) => break (addrs, old),
+            Err(e) => {
+                kill_worker(&mut old);
+                let _ = old.join_within(Duration::from_secs(5));
+                close_scm(&old);
+                if attempt >= 4 {
+                    return json!({"run": sc.run, "cfg": {"mode": sc.mode}, "invalid": e, "ctl": [], "ham": []});
+                }
+            }
+        }
+    };
     let ctr = Arc::new(AtomicUsize::new(0));
     let mut ctl = Ctl { ev: Vec::new(), ctr: ctr.clone(), rng: StdRng::seed_from_u64(seed ^ (sc.run as u64) << 8), jitter_ms };
     let cfg = json!({
@@ -622,13 +641,6 @@ fn run_scenario(sc: &Scenario, be: &Backends, pause_ms: u64, jitter_ms: u64, see
     });
     let fail = |why: String, ctl: &Ctl| json!({"run": sc.run, "cfg": cfg, "invalid": why, "ctl": ctl.ev, "ham": []});
 
-    let mut old = start_worker(&format!("old{}", sc.run), vh::worker::server_config(|_| {}), &Listeners::default(), sozu_command_lib::state::ConfigState::new());
-    if let Err(e) = setup_worker(&mut old, sc, &addrs, be.http_old, be.tcp_old) {
-        kill_worker(&mut old);
-        let _ = old.join_within(Duration::from_secs(5));
-        close_scm(&old);
-        return fail(e, &ctl);
-    }
     let mut new: Option<Worker> = None;
     let mut old_alive = true;
     let mut stop_sent_at: Option<Instant> = None;
@@ -654,7 +666,7 @@ fn run_scenario(sc: &Scenario, be: &Backends, pause_ms: u64, jitter_ms: u64, see
     let mut invalid: Option<String> = None;
     for (i, sp) in sc.slots.iter().enumerate() {
         if sp.stage == "none" {
-            slots.push(Slot { spec: sp.clone(), a: 0, conn: None, req: String::new(), body_sent: 0, head_sent: 0, full: vec![], ended: true });
+            slots.push(Slot { spec: sp.clone(), a: 0, conn: None, req: String::new(), body_sent: 0, head_sent: 0, full: vec![], ended: true, released: false });
             continue;
         }
         let h2 = sp.stage.starts_with("h2");
@@ -674,7 +686,7 @@ fn run_scenario(sc: &Scenario, be: &Backends, pause_ms: u64, jitter_ms: u64, see
             }
         };
         tcp.set_nodelay(true).ok();
-        let mut slot = Slot { spec: sp.clone(), a: ai + 1, conn: None, req: req.clone(), body_sent: 0, head_sent: 0, full: vec![], ended: false };
+        let mut slot = Slot { spec: sp.clone(), a: ai + 1, conn: None, req: req.clone(), body_sent: 0, head_sent: 0, full: vec![], ended: false, released: false };
         if h2 {
             let mut c = match tls_over(tcp, T_IO) {
                 Ok(c) => c,
@@ -768,11 +780,25 @@ fn run_scenario(sc: &Scenario, be: &Backends, pause_ms: u64, jitter_ms: u64, see
                 Some(Conn::H2(c)) => s.spec.stage != "h2Open" || c.send(&Frame::data(1, BODY.to_vec(), true)),
                 None => true,
             };
+            s.released = true;
             ctl.log(json!({"e": "SlotRelease", "r": i + 1, "wrote": okw}));
         }
         for (i, s) in slots.iter_mut().enumerate() {
             if s.ended || s.spec.release != when {
                 continue;
+            }
+            // a connection that had not sent a complete head may still sit in the listen backlog (nobody
+            // proved that the old worker accepted it): its answer can only come once the successor accepts,
+            // i.e. after steps this very thread has yet to perform. Do not wait for it here.
+            if s.spec.stage == "preHeaders" {
+                if let Some(Conn::H1(t)) = s.conn.as_mut() {
+                    t.set_read_timeout(Some(Duration::from_millis(400))).ok();
+                    let mut b = [0u8; 1];
+                    match t.peek(&mut b) {
+                        Err(e) if e.kind() == std::io::ErrorKind::WouldBlock || e.kind() == std::io::ErrorKind::TimedOut => continue,
+                        _ => {}
+                    }
+                }
             }
             let to = slot_timeout(s, old_dead);
             let (out, by) = match s.conn.as_mut() {
@@ -1000,16 +1026,19 @@ fn run_scenario(sc: &Scenario, be: &Backends, pause_ms: u64, jitter_ms: u64, see
         if s.ended {
             continue;
         }
-        let okw = match s.conn.as_mut() {
-            Some(Conn::H1(t)) => {
-                let from = s.head_sent + s.body_sent;
-                let rest = s.full[from..].to_vec();
-                rest.is_empty() || t.write_all(&rest).is_ok()
-            }
-            Some(Conn::H2(c)) => s.spec.stage != "h2Open" || c.send(&Frame::data(1, BODY.to_vec(), true)),
-            None => true,
-        };
-        ctl.log(json!({"e": "SlotRelease", "r": i + 1, "wrote": okw}));
+        if !s.released {
+            let okw = match s.conn.as_mut() {
+                Some(Conn::H1(t)) => {
+                    let from = s.head_sent + s.body_sent;
+                    let rest = s.full[from..].to_vec();
+                    rest.is_empty() || t.write_all(&rest).is_ok()
+                }
+                Some(Conn::H2(c)) => s.spec.stage != "h2Open" || c.send(&Frame::data(1, BODY.to_vec(), true)),
+                None => true,
+            };
+            s.released = true;
+            ctl.log(json!({"e": "SlotRelease", "r": i + 1, "wrote": okw}));
+        }
         let to = slot_timeout(s, &old_dead);
         let (out, by) = match s.conn.as_mut() {
             Some(Conn::H1(t)) => h1_read_response(t, &s.req, to),
